@@ -31,7 +31,7 @@ _SCOPE = ("Theorems quantify over every `ops : List Op` of the backend model: fr
 MANIFEST = {
     "C03": dict(
         technique="Lean 4 proof: conservation and dispatch invariants of the backend model over all schedules (per context accepted = popped ++ transit buffer ++ queue, byte-exact coherence with the proved bounded SPSC queue, every pop emits exactly the dispatch block, ids unique, at most once per sink over the whole log; transit ring buffer refines a FIFO); deterministic differential correspondence of the real Frontend/BackendWorker with the compiled model under a scheduler harness with hook-site injections + exactly-once/order/delivery oracles",
-        text=_SCOPE + "Proved for every schedule: C03_conservation (accepted = popped ++ buf ++ qStmts per context, in issue order), C03_queue_coherent (the pending statements are exactly the unread records of the queue, byte counts included), C03_empty_test_sound, C03_removed_drained (a context is dropped only invalid, empty, with accepted = popped), C03_dispatch_exact (one write per sink of the logger whose level and filters accept, in sink order, cut at the first throwing sink), C03_pop_emits_dispatch, C03_ids_unique, C03_at_most_once (number of ordinary writes of an id at a sink over the whole log <= multiplicity of the sink in its logger's list), C03_writes_only_of_popped; the TransitEventBuffer (growth from the reader position, slot reuse, shrink) refines a FIFO (C03_transit_refines, own correspondence stream on the real class). NOT proved as one global statement: the lower bound 'exactly once over the log' (it is proved per pop step — the block emitted is exactly the dispatch — plus the global upper bound). Tie: real Logger/macros/ThreadContextManager/BackendWorker (ManualBackendWorker) under a deterministic scheduler (virtual clock, parked frontend calls, injected operations), every observation line recomputed by the compiled Lean model; oracles on the recorded sink calls (exactly once, per-thread order, accepted => delivered after the drain) also on the two unbounded-queue builds.",
+        text=_SCOPE + "Proved for every schedule: C03_conservation (accepted = popped ++ buf ++ qStmts per context, in issue order), C03_queue_coherent (the pending statements are exactly the unread records of the queue, byte counts included), C03_empty_test_sound, C03_removed_drained (a context is dropped only invalid, empty, with accepted = popped), C03_dispatch_exact (one write per sink of the logger whose level and filters accept, in sink order, cut at the first throwing sink), C03_pop_emits_dispatch, C03_ids_unique, C03_at_most_once (number of ordinary writes of an id at a sink over the whole log <= multiplicity of the sink in its logger's list), C03_writes_only_of_popped; the TransitEventBuffer (growth from the reader position, slot reuse, shrink) refines a FIFO (C03_transit_refines, own correspondence stream on the real class). Exactly once over the WHOLE event log: C03_nothing_written_before_pop (a statement still queued or buffered has no write anywhere), C03_pop_writes_exactly (the pop leaves exactly one write per occurrence of each sink that accepts it at dispatch time; with a write fault only the sinks before the faulting one), C03_writes_frozen_after_pop (afterwards the count never changes, through every schedule), C03_exactly_once (their composition across one processing call and any later schedule; the acceptance decision is the one of the state in which that call starts). Tie: real Logger/macros/ThreadContextManager/BackendWorker (ManualBackendWorker) under a deterministic scheduler (virtual clock, parked frontend calls, injected operations), every observation line recomputed by the compiled Lean model; oracles on the recorded sink calls (exactly once, per-thread order, accepted => delivered after the drain) also on the two unbounded-queue builds.",
         note=_COMMON_NOTE, ref="§5 C03, §4.3, §9.1"),
     "C05": dict(
         technique="Lean 4 proof: ordering invariant over all schedules under the property's own grace-period premise (pop order sorted by timestamp); extraction of the sample-then-refresh order with a negative witness for the pinned order (F5); differential correspondence incl. registration inside the sampling window and inside the clock read",
@@ -39,11 +39,11 @@ MANIFEST = {
         note=_COMMON_NOTE + " rdtsc→epoch conversion is not modelled (System clock in the harness).", ref="§5 C05, §9.1, Appendix A.2"),
     "C06": dict(
         technique="Lean 4 proof: flag-after-flush invariants on the backend model for every schedule (flag only after the Flush event was popped, own statements popped first, every sink of every logger not yet erased flushed before the flag, other threads' strictly older statements popped under C05's hypotheses, request never dropped or counted); witnesses for F6 and F12; differential correspondence + oracle at the moment flush_log returns",
-        text=_SCOPE + "Proved: C06_flag_only_after_pop, C06_flag_numbers_unique (a caller is released only by its own Flush event), C06_own_statements_first (everything the caller's thread accepted earlier was popped — hence dispatched, C03 — before its Flush statement), C06_flush_step (processing the Flush event emits flushed / fthrow+notification for every active sink and only then raises the flag; a throwing flush blocks neither the other sinks nor the flag), C06_other_threads (grace != 0, C05 premise: every record of any thread with a strictly smaller timestamp has been popped when the flag is raised; equal clock values are a tie and not claimed), C06_flush_never_dropped (dropping and blocking queues: a refused request parks for a retry with nothing counted), C06_release. Findings proved as witnesses: F6 (pinned refresh order) and F12 (sinks of a logger marked for removal were skipped by the flush: C06_removed_logger_sink_not_flushed_unrepaired / _sink_flushed for the repaired, extracted flag value). PARTIAL on liveness: 'flush_log returns as long as the backend keeps running' is proved only as one-step progress facts (C06_progress_partial).",
+        text=_SCOPE + "Proved: C06_flag_only_after_pop, C06_flag_numbers_unique (a caller is released only by its own Flush event), C06_own_statements_first (everything the caller's thread accepted earlier was popped — hence dispatched, C03 — before its Flush statement), C06_flush_step (processing the Flush event emits flushed / fthrow+notification for every active sink and only then raises the flag; a throwing flush blocks neither the other sinks nor the flag), C06_other_threads (grace != 0, C05 premise: every record of any thread with a strictly smaller timestamp has been popped when the flag is raised; equal clock values are a tie and not claimed), C06_flush_never_dropped (dropping and blocking queues: a refused request parks for a retry with nothing counted), C06_release. Findings proved as witnesses: F6 (pinned refresh order) and F12 (sinks of a logger marked for removal were skipped by the flush: C06_removed_logger_sink_not_flushed_unrepaired / _sink_flushed for the repaired, extracted flag value). Progress ('flush_log returns as long as the backend keeps running'): C06_flush_log_returns_partial / C06_flush_log_returns_after_grace_partial — from any reachable state of any configuration with the backend running and a COMMITTED Flush request, once every pending record is past its grace period (or after a clock tick >= grace), every continuation of quiet polls and ticks with at least as many polls as there are pending records ends with the flag raised and the caller's resume answers done (single-event and batch mode, every soft/hard limit; each quiet poll pops at least one event while anything is pending). PARTIAL: a caller still parked on the retry of a refused Flush request is not covered by that theorem (it needs the end-to-end form of C09: a drained queue grants the retry).",
         note=_COMMON_NOTE, ref="§5 C06, §7 F6 F12, §9.1"),
     "C08": dict(
         technique="Lean 4 proof: accounting invariants on the backend model for every schedule (discarded + blocked = reported + pending counters; ret=1 iff appended, ret=0 iff counted; control requests retried, never counted; a reclaimed context has a zero counter under the extracted F24 flag); witnesses for F17/F24 in all flag combinations; differential correspondence on the BoundedDropping build + drop-count oracle",
-        text=_SCOPE + "Proved: C08_accounting (sum of discarded statements and blocking episodes = reported through the notifier + sum of the per-context counters, over all contexts ever created), C08_dropped_equals_reported_plus_pending (dropping queue), C08_log_call_outcome (a log call returns true iff the statement is appended to the accepted history and no counter moves, false iff nothing is appended and the counter and the discarded count grow by one), C08_control_request_retried / _retry_reattempts / _control_kinds (flush, backtrace init/flush, removal requests are parked and re-attempted, never counted), C08_removed_context_reported (removed => counter 0 in every reachable state, under the extracted flag of the F24 repair), delivered statements intact and in order via C03. Witnesses by `decide`: the F17 and F24 schedules lose a count for the unrepaired flag values and report it for the repaired ones. PARTIAL: full quiescence ('after an idle pass every counter is reported') is proved under the assumption that the cache covers the registry (C08_idle_pass_drains_counters_partial).",
+        text=_SCOPE + "Proved: C08_accounting (sum of discarded statements and blocking episodes = reported through the notifier + sum of the per-context counters, over all contexts ever created), C08_dropped_equals_reported_plus_pending (dropping queue), C08_log_call_outcome (a log call returns true iff the statement is appended to the accepted history and no counter moves, false iff nothing is appended and the counter and the discarded count grow by one), C08_control_request_retried / _retry_reattempts / _control_kinds (flush, backtrace init/flush, removal requests are parked and re-attempted, never counted), C08_removed_context_reported (removed => counter 0 in every reachable state, under the extracted flag of the F24 repair), delivered statements intact and in order via C03. Witnesses by `decide`: the F17 and F24 schedules lose a count for the unrepaired flag values and report it for the repaired ones. Never both: C08_dropped_call_id_unplaced, C08_unplaced_forever, C08_discarded_never_written (the id of a refused call is in no accepted history or parked call, stays so through every schedule, and is never written at any sink). Quiescence: C08_cache_covers_registry, C08_idle_pass_drains_counters, C08_quiescent_all_reported (from a freshly started system, after ANY schedule followed by one idle poll with nothing injected, every counter of every context ever created is 0 and the discarded statements equal the reported ones). The counter protocol itself (fetch_add against load+exchange) is one atomic step in this model; its structure is an extraction obligation (counterResetAtomic) and, when present, a separate interleaving model (Reg bundle).",
         note=_COMMON_NOTE, ref="§5 C08, §7 F17 F24, §9.1"),
     "C10": dict(
         technique="Lean 4 proof: fault locality on the backend model with arbitrary write_log / flush_sink fault schedules for every schedule (conservation and at-most-once survive, the event is popped on every path, a write fault splits the sink list at the first accepting thrower and touches nothing else, a flush visits every sink and raises its flag); differential correspondence with throwing recording sinks",
@@ -116,6 +116,42 @@ def run_script(hbin, name, lines, workdir):
     return name, lines, rc, out
 
 
+def variant_of_case(case):
+    m = re.match(r"(?:corpus_.*_)?v(\d)", case) or re.search(r"_v(\d)$", case)
+    return int(m.group(1)) if m else 0
+
+
+def shrink_script(hbin, lines, still_fails, budget=160):
+    """delta debugging (ddmin) on the operations after `start`: the smallest script found within the budget on which
+    `still_fails(rc, out)` holds. Removing operations is always legal: what the contract forbids is a no-op in harness and model."""
+    try:
+        k0 = lines.index("start") + 1
+    except ValueError:
+        return lines
+    head, body = lines[:k0], lines[k0:]
+    runs = [0]
+
+    def fails(b):
+        runs[0] += 1
+        _, _, rc, out = run_script(hbin, "shrink_%d" % os.getpid(), head + b, vlib.CACHE)
+        return still_fails(rc, out)
+
+    n = 2
+    while len(body) >= 2 and runs[0] < budget:
+        chunk = max(1, len(body) // n)
+        reduced = False
+        for i in range(0, len(body), chunk):
+            cand = body[:i] + body[i + chunk:]
+            if cand and runs[0] < budget and fails(cand):
+                body, n, reduced = cand, max(n - 1, 2), True
+                break
+        if not reduced:
+            if chunk == 1:
+                break
+            n = min(n * 2, len(body))
+    return head + body
+
+
 def classify(impl, model):
     """which properties a differing observation line speaks about"""
     it, mt = set(impl.split()), set(model.split())
@@ -157,7 +193,9 @@ def collect(ck, tier, ex):
                         vlib.tree_hash([os.path.join(vlib.VERIF, "tools", "backend_gen.py"), os.path.join(vlib.VERIF, "corpus"), vlib.DRIVER])).encode()).hexdigest()[:16]
     cpath = os.path.join(vlib.CACHE, "backend_%s.json" % key)
     if os.path.exists(cpath):
-        return json.load(open(cpath))
+        r = json.load(open(cpath))
+        r["bins"] = {str(v): b for v, b in bins.items()}
+        return r
     n_random = 60 if tier == "quick" else 3000
     nops = 60 if tier == "quick" else 120
     workdir = os.path.join(vlib.CACHE, "h2work_%d" % os.getpid())
@@ -224,6 +262,7 @@ def collect(ck, tier, ex):
         pass
     with open(cpath, "w") as f:
         json.dump(res, f)
+    res["bins"] = {str(v): b for v, b in bins.items()}
     # keep the cache small
     olds = sorted((os.path.getmtime(os.path.join(vlib.CACHE, f)), f) for f in os.listdir(vlib.CACHE) if f.startswith("backend_") and f.endswith(".json"))
     for _, f in olds[:-6]:
@@ -246,6 +285,7 @@ def run(prop, tier):
         ck.extracted = vlib.run_extract()
         vlib.lake_build(["driver"])
     ex = ck.extracted
+    tier_shrinks = os.environ.get("VERIF_NO_SHRINK") is None
     for b in ps["broken"]:
         ck.log("PROOF SIDE BROKEN: " + b)
     res = collect(ck, tier, ex)
@@ -316,11 +356,25 @@ def run(prop, tier):
     mine_mm = [m for m in res["mismatches"] if prop in m["props"]]
     if res["aborts"]:
         a = res["aborts"][0]
-        ck.violation("abort", "# harness aborted rc=%s (sanitizer / assertion / crash in the real code)\n%s\n# ---- output tail ----\n# %s\n" % (
+        hb = res.get("bins", {}).get(str(variant_of_case(a["case"])))
+        if hb and tier_shrinks:
+            a = dict(a, script=shrink_script(hb, a["script"], lambda rc, out: rc == a["rc"]))
+        ck.violation("abort", "# harness aborted rc=%s (sanitizer / assertion / crash in the real code); script minimised by delta debugging\n%s\n# ---- output tail ----\n# %s\n" % (
             a["rc"], "\n".join(a["script"]), a["tail"].replace("\n", "\n# ")),
             "the real code aborted under the scheduler harness in case %s (rc=%s): %s" % (a["case"], a["rc"], a["tail"].strip().split("\n")[-1][:200]))
     if mine_or:
         o = mine_or[0]
+        hb = res.get("bins", {}).get(str(variant_of_case(o["case"])))
+        sc = res.get("scripts", {}).get(o["case"])
+        if hb and sc and tier_shrinks:
+            small = shrink_script(hb, sc, lambda rc, out: rc == 0 and any(p == prop for p, _ in bg.oracles(out.split("\n"))))
+            if len(small) < len(sc):
+                _, _, _, out_small = run_script(hb, "shrunk_%d" % os.getpid(), small, vlib.CACHE)
+                msgs = [m for p, m in bg.oracles(out_small.split("\n")) if p == prop]
+                if msgs:
+                    res.setdefault("scripts", {})[o["case"]] = small
+                    res.setdefault("outputs", {})[o["case"]] = out_small
+                    o = dict(o, msg=msgs[0] + " [script minimised by delta debugging: %d -> %d lines]" % (len(sc), len(small)))
         ck.violation("oracle", replay_text(o["case"], "property oracle on the real code: " + o["msg"]),
                      "property fails on the real code: %s (case %s; %d oracle hits for this property)" % (o["msg"], o["case"], len(mine_or)))
     elif mine_mm:
